@@ -362,6 +362,11 @@ class Gen:
             fid = self.new_fn(ins, outs, variadic)
         if self.p("malformed") and r.random() < 0.5:
             opts = self.malformed_opts(opts)
+        if self.p("malformed") and r.random() < 0.08:
+            # flatten + As on a named slice type with methods
+            fid = self.new_fn([], [u(50)])
+            outs = self.fns[fid - 1]["out"]
+            opts = {"name": "", "group": r.choice(["g,flatten", "g"]), "as": [{"iface": 20}], "opts": ["group", "as"]}
         export = self.p("export")
         if export:
             opts["opts"] = list(opts["opts"]) + ["export"]
@@ -392,8 +397,10 @@ class Gen:
                         sl_out = 51
                     ins.append(self.st([self.in_field(), self.field("G", u(sl), {"group": g})]))
                     tag = g
-                    if r.random() < 0.05:
+                    if r.random() < 0.06:
                         tag = g + ",flatten"
+                        if elem in (10, 11, 12, 13) and r.random() < 0.7:
+                            sl_out = 60 + (elem - 10)       # [][]*T flattened by a decorator
                     outs.append(self.st([self.out_field(), self.field("G", u(sl_out), {"group": tag})]))
                 else:
                     if self.provided and r.random() < 0.85:
